@@ -40,7 +40,7 @@ def concretize(vals, dtype: str) -> np.ndarray:
         for v in vals:
             if v[1] != 1:
                 raise ValueError(f"non-integer {v} for dtype {dtype}")
-        return np.array([v[0] for v in vals], dtype=dt)
+        return np.array([v[0] for v in vals], dtype=np.int64).astype(dt)
     if dt.kind in "Mm":
         out = np.array([np.iinfo(np.int64).min if v[1] == 0 else v[0] for v in vals], dtype=np.int64)
         return out.view(dt)
@@ -165,9 +165,10 @@ def run_reduce_case(case: dict) -> dict:
             result, groups = groupby_reduce(array, by, **kw)
         rec["out_dtype_seen"] = str(np.asarray(result).dtype)
         rec["groups"] = label_tokens(groups, kind)
-        rec["out"] = project_out(case["func"], result)
+        tol = case.get("tol") or 1e-9
+        rec["out"] = project_out(case["func"], result, tol)
         if case["func"] in STD_FUNCS:
-            rec["raw"] = project_raw(result)
+            rec["raw"] = project_raw(result, tol)
     except ProjectionError as e:
         rec["exc"] = "ProjectionError"
         rec["msg"] = str(e)
